@@ -255,10 +255,12 @@ pub fn check(s: &'static dyn Proto, c: &Case, st: &mut Stats, _k: &KnownFindings
     let case_hash = hash_of(&(m.name, c));
     let mut n_nontrivial = 0u64;
     for (pi, p) in pendings.iter().enumerate() {
+        let mut n_this = 0u64;
         for (name, cand) in &cands {
             if pi >= n_direct && (name.contains(":subst@") || name.contains(":pairflip@")) {
                 continue;
             }
+            n_this += 1;
             let is_genuine = p.genuine.as_ref().map(|(f, _)| f == cand).unwrap_or(false);
             let fin = match s.de(Codec::Native, Ty::CredFin, cand) {
                 Ok(f) => f,
@@ -295,7 +297,7 @@ pub fn check(s: &'static dyn Proto, c: &Case, st: &mut Stats, _k: &KnownFindings
                 }
             }
         }
-        st.label_n(format!("state:{}", p.kind), cands.len() as u64);
+        st.label_n(format!("state:{}", p.kind), n_this);
     }
     st.nontrivial_bulk(case_hash, n_nontrivial);
     st.sample(|| {
